@@ -205,6 +205,15 @@ static void vh_end(void) {
     for (k = 0; k < 2; k++) if (S[k]) { spif_mbuff_del(S[k]); S[k] = (spif_mbuff_t) NULL; }
 }
 
+/* Conv_CmpWithPtrCountBeyondLength (MBuffObj.tla): count larger than the buffer and the buffer equal to the first len bytes
+ * at the pointer - the specification accepts EQUAL or LESS (expected token "*"); GREATER is accepted by neither reading. */
+static const char *beyond_length_check(spif_mbuff_t m, const unsigned char *p, long n, int c) {
+    if (n > (long) m->len && (m->len == 0 || !memcmp(m->buff, p, (size_t) m->len)) && c != 0 && c != -1) {
+        FAIL("cmp_with_ptr_count_beyond_length_returned_%d_(EQUAL_or_LESS_allowed)", c);
+    }
+    return NULL;
+}
+
 #define OP(s) (!strcmp(op, s))
 #define NEED_LIVE(k) do { if (!S[k]) FAIL("harness:op_%s_on_absent_slot", op); } while (0)
 #define NEED_ABSENT(k) do { if (S[k]) FAIL("harness:op_%s_on_live_slot", op); } while (0)
@@ -335,7 +344,11 @@ static const char *vh_step(const vh_step_t *st, vh_sb *ret, vh_sb *state) {
         NEED_LIVE(me);
         p = vh_bytes(st->args[0], &n, 0);
         if (OP("find_from_ptr")) sb_int(ret, (long) M_FIND_PTR(m, (spif_byteptr_t) p, (spif_memidx_t) n));
-        else sb_int(ret, (long) (int) M_CMP_PTR(m, (spif_byteptr_t) p, (spif_memidx_t) n));
+        else {
+            int c = (int) M_CMP_PTR(m, (spif_byteptr_t) p, (spif_memidx_t) n);
+            if ((inv = beyond_length_check(m, p, (long) n, c))) return inv;
+            sb_int(ret, (long) c);
+        }
     } else if (OP("ncmp")) {
         spif_mbuff_t o = other_of(st->args[0]);
         NEED_LIVE(me); if (!o) FAIL("harness:no_other_object");
@@ -343,7 +356,12 @@ static const char *vh_step(const vh_step_t *st, vh_sb *ret, vh_sb *state) {
     } else if (OP("ncmp_with_ptr")) {
         NEED_LIVE(me);
         p = vh_bytes(st->args[0], &n, 0);
-        sb_int(ret, (long) (int) M_NCMP_PTR(m, (spif_byteptr_t) p, (spif_memidx_t) vh_int(st->args[1])));
+        {
+            long cnt = vh_int(st->args[1]);
+            int c = (int) M_NCMP_PTR(m, (spif_byteptr_t) p, (spif_memidx_t) cnt);
+            if ((inv = beyond_length_check(m, p, cnt, c))) return inv;
+            sb_int(ret, (long) c);
+        }
     } else if (OP("subbuff")) {
         spif_mbuff_t r;
         NEED_LIVE(0); NEED_ABSENT(1);
